@@ -259,7 +259,19 @@ func c10CheckValset(r *Rec, snap *valsettypes.Snapshot, ref string, v *evmtypes.
 		}
 	}
 	twice := false
-	for i := range snap.Validators {
+	for i, val := range snap.Validators {
+		// the property's wording: "restricted to validators with an account there" - with the notion of
+		// account of the snapshot clause (any chain type). A validator whose only account on this chain
+		// is not EVM-typed is in the snapshot (its stake is in the divisor) but not in the valset:
+		// known finding C10-account-type, reported as KNOWN-FINDING.
+		if naccts[i] == 0 {
+			for _, e := range val.ExternalChainInfos {
+				if e.ChainReferenceID == ref {
+					c10Hit(r, "restricted_any_account", "account-type", fmt.Sprintf("account-type: validator #%d has an account of chain type %q on %s, is counted in snapshot %d (total %s) but is not in valset %d sent there", i, e.ChainType, ref, snap.Id, total, v.ValsetID), replay)
+					break
+				}
+			}
+		}
 		switch {
 		case naccts[i] > 0 && listed[i] == 0:
 			c10Hit(r, "restricted_to_chain", "missing", fmt.Sprintf("valset %d for %s misses validator #%d which has an account there", v.ValsetID, ref, i), replay)
